@@ -6,13 +6,21 @@ META = {
  "technique": "bounded symbolic model checking (CBMC/SAT): differential equivalence of real decrypt functions vs RFC reference, all record bytes symbolic",
  "assumptions": [
   "block cipher = toy CBC class (x -> x^K with real CBC chaining) behind br_block_cbcdec_class",
-  "HMAC = toy MAC (sum/rotate accumulator) bound at the link-time seam br_hmac_{key_init,init,update,out,outCT}; the toy outCT asserts its min<=len<=max precondition",
+  "HMAC = toy MAC (16 one-byte lanes, 8-bit add / rotate-by-one-xor; the key, every input byte, its position and the total length influence the output; br_hmac_out(update(d)) == br_hmac_outCT(d)) bound at the link-time seam br_hmac_{key_init,init,update,out,outCT}; the toy outCT asserts its min<=len<=max precondition",
   "record body length, MAC length, block size and explicit/implicit IV are concrete per query and enumerated by the driver",
   "AEAD (C02.b): block cipher behind br_block_ctr_class / br_block_ctrcbc_class = toy 16-byte block function (byte sum + neighbour byte + key) with the documented CTR / CTR+CBC-MAC semantics; br_ghash = toy accumulator honouring the 16-byte-block zero-padding contract; br_chacha20_run / br_poly1305_run = toy keystream and a toy 16-byte authenticator over (MAC key from block 0, aad_len, aad, len, ciphertext) (harness/C02_aead_stubs.h); src/aead/ccm.c is the real file",
   "AEAD (C02.b): the reference is written in the harness from RFC 5288 + SP 800-38D (GCM), RFC 6655 + RFC 3610 (CCM/CCM_8), RFC 7905 (ChaCha20+Poly1305) with AAD = seq||type||version||plaintext length of RFC 5246 6.2.3.3; plaintext length and key length are concrete per query, check_length is compared for all size_t rlen",
  ],
  "outside_claim": ["unforgeability of HMAC/GHASH/Poly1305", "whole sessions, drop/dup/reorder across records (reduced to seq in MAC input, C20)", "all 45 suites with real ciphers", "record bodies longer than the listed lengths"],
  "mutants_tried": [
+  "C02.a caught: MAC compare loop of cbc_decrypt starts at byte 1 -> all cbc-dec-* 'cbc_decrypt accepts iff the RFC reference accepts'",
+  "C02.a caught: LT(u, len) -> LE(u, len) in the padding check loop (first padding byte unchecked) -> all cbc-dec-*",
+  "C02.a caught: MAC input header shortened to 11 bytes (length field dropped) -> all cbc-dec-*",
+  "C02.a caught: MAC input header without seq (tmp2+8, 5 bytes) -> all cbc-dec-*",
+  "C02.a caught: br_hmac_outCT called with len_nomac+1 -> all cbc-dec-*",
+  "C02.a caught: br_hmac_outCT called with max_len-1 -> all cbc-dec-* (stub precondition assertion and acceptance mismatch)",
+  "C02.a caught: LE(pad_len, max_len - min_len) -> LT (empty-plaintext records refused) -> all cbc-dec-*",
+  "C02.a NOT caught (expected): 'good &= LE(len_nomac, 16384)' removed - no record length within the bounds of the queries can carry more than 16384 plaintext bytes, so the test is dead code at these sizes",
   "C02.b caught: gcm_decrypt compares 15 tag bytes -> aead-gcm-* 'accepts iff the RFC 5288 reference accepts'",
   "C02.b caught: GCM AAD length field = ciphertext+overhead length instead of plaintext length -> aead-gcm-*",
   "C02.b caught: GCM nonce copied from record offset 1 -> aead-gcm-*",
@@ -42,8 +50,15 @@ def queries():
     for (rl, ml, ex, blk, tier) in cases:
         qs.append(Q("cbc-dec-RL%d-ML%d-%s-B%d" % (rl, ml, "expl" if ex else "impl", blk), "C02_cbc.c",
                     defs=["-DRL=%d" % rl, "-DML=%d" % ml, "-DEXPL=%d" % ex, "-DTOY_BLK=%d" % blk],
-                    unwind=rl + 2, tier=tier, timeout=900 if tier == "thorough" else 300,
+                    unwind=rl + 2, tier=tier, timeout=900 if tier == "thorough" else 300, backend="cadical",
                     desc="cbc_decrypt == RFC 5246 reference for every %d-byte record body, mac_len %d, %s IV, block %d" % (rl, ml, "explicit" if ex else "implicit", blk)))
+    # ---- CBC record length admission, every rlen (size_t) ----
+    for ml in (16, 20, 32, 48):
+        for ex in (0, 1):
+            for blk in (8, 16):
+                qs.append(Q("cbc-checklen-ML%d-%s-B%d" % (ml, "expl" if ex else "impl", blk), "C02_cbc_checklen.c",
+                            defs=["-DML=%d" % ml, "-DEXPL=%d" % ex, "-DTOY_BLK=%d" % blk], unwind=50, timeout=120,
+                            desc="cbc_check_length(rlen) == RFC admissible set (whole blocks, MAC+1 .. 16384+MAC+256, +IV) for every size_t rlen"))
     # ---- C02.b AEAD (GCM / CCM / CCM_8 / ChaCha20+Poly1305) ----
     # (mode, PLEN, extra defs, tier)
     aead = []
